@@ -440,7 +440,8 @@ import suite_names  # noqa: E402
 PROPS["C09"] = {
     "lean": ["CocoVerif.Props.C09", "CocoVerif.Props.Front"],
     "lean_extra": ["CocoVerif.Model.Names"] + FRONT_LEAN,
-    "suites": [{"name": "names", "relevant": lambda c: True, "oracle": suite_names.oracle}] + FRONT_SUITES,
+    "suites": [{"name": "names", "relevant": lambda c: True, "oracle": suite_names.oracle, "classify": suite_names.classify}]
+              + FRONT_SUITES,
     "search": None,
     "rule": "all 26 one-letter names, 120 (thorough: all 936) two-character names and sampled longer names up to 6 characters, in "
             "25 one-line templates covering every position a variable can occupy (assignment target, expression, FOR, NEXT, "
@@ -470,6 +471,13 @@ PROPS["C12"] = {
 }
 
 import suite_lib  # noqa: E402
+
+# C03 says INSTR / STRING$ / VAL of an empty datum keep their meaning: the translation sends them to the
+# runtime's ecb_instr / ecb_string / ecb_read_filter, whose correctness is C20 - so C03 carries C20's tie
+# (the helper bodies of ecb.b09 as they are now = the pinned ASTs the theorems are about) and its oracle
+PROPS["C03"]["lean"] += ["CocoVerif.Tie.EcbHelpers", "CocoVerif.Props.C20"]
+PROPS["C03"]["lean_extra"] += ["CocoVerif.Model.B09Lib", "CocoVerif.Spec.Strings", "CocoVerif.Pinned.EcbHelpers"]
+PROPS["C03"]["suites"].append({"name": "lib", "relevant": lambda c: True, "oracle": suite_lib.oracle})
 
 PROPS["C20"] = {
     "lean": ["CocoVerif.Tie.EcbHelpers", "CocoVerif.Props.C20"],
@@ -541,6 +549,15 @@ def replay_witness(f):
         o = {"flags": w.get("flags", "0100000"), "storage": 32, "procname": "", "sizes": []}
         case = {"text": w["text"], "opts": o}
         return suite_ctl.oracle(case, impl_b09.convert(w["text"], o))
+    if isinstance(w, dict) and w.get("type") == "names":
+        tpl = {t.format(v=w["name"]): rx for _, t, rx in suite_names.TEMPLATES}
+        here = suite_names.impl_ident(w["text"], tpl[w["text"]])
+        other = suite_names.impl_ident(w["other"], tpl[w["other"]])
+        from common import hexs
+        as_var = "ok " + hexs(suite_names.expected(w["name"], w["kind"]).encode())
+        case = {"name": w["name"], "kind": w["kind"], "text": w["text"],
+                "aux": {"not_var": [] if other == as_var or other.startswith("rejected") else [w["other"]]}}
+        return suite_names.oracle(case, here)
     if isinstance(w, dict) and w.get("type") == "layout":
         import impl_b09
         case = {"kind": w["kind"], "text": w["text"], "base": w["base"], "detail": "", "opts": suite_layout.OPTS,
